@@ -2,7 +2,7 @@
 
 from __future__ import annotations
 
-from asyncio import Future, ensure_future, gather
+from asyncio import CancelledError, Future, ensure_future, gather
 from typing import TYPE_CHECKING, Any
 
 if TYPE_CHECKING:
@@ -25,7 +25,10 @@ async def gather_with_cancel(*awaitables: Awaitable[Any]) -> list[Any]:
     futures: list[Future[Any]] = [ensure_future(aw) for aw in awaitables]
     try:
         return await gather(*futures)
-    except Exception:
+    except (Exception, CancelledError):
+        # This also covers the case that we are cancelled ourselves: gather()
+        # then already propagates the cancellation when the first awaitable has
+        # been cancelled, while the others may still need time to settle.
         for future in futures:
             if not future.done():
                 future.cancel()
